@@ -2760,3 +2760,132 @@ def split_record_tables(tree):
         _link(tree)
         done.append(tgt.id)
     return done
+
+
+# ---------------------------------------------------------------------------------------------------------------------
+# a classifier that names the kind of a value with an enum member
+# ---------------------------------------------------------------------------------------------------------------------
+def inline_kind_dispatch(tree):
+    """`kind = K(x)` followed by tests `kind is E.A` / `kind == E.A`, where E is an Enum of this module and K a function
+    of this module of the shape
+        def K(x): [if <test on x>: return E.M]*  return TABLE.get(x, E.D)        (or a final `return E.D`)
+    with TABLE a module-level dictionary from one-character texts to members of E (a display, or the comprehension
+    `{c: m for cs, m in ((text, E.M), ..) for c in cs}`): every test on `kind` reads as the condition under which K
+    answers that member -- the earlier tests of K failing and its own test holding; for the table, membership of x in the
+    text of the characters mapped to that member."""
+    enums = {c.name: [t.id for s in c.body if isinstance(s, ast.Assign) for t in s.targets if isinstance(t, ast.Name)]
+             for c in tree.body if isinstance(c, ast.ClassDef) and any(ast.unparse(b) in ('enum.Enum', 'Enum', 'enum.IntEnum', 'IntEnum') for b in c.bases)}
+    if not enums:
+        return []
+
+    def member(e):
+        if isinstance(e, ast.Attribute) and isinstance(e.value, ast.Name) and e.value.id in enums and e.attr in enums[e.value.id]:
+            return (e.value.id, e.attr)
+        return None
+    tables = {}
+    for st in tree.body:
+        if isinstance(st, ast.Assign) and len(st.targets) == 1 and isinstance(st.targets[0], ast.Name):
+            v = st.value
+            mp = None
+            if isinstance(v, ast.Dict) and v.keys and all(isinstance(k, ast.Constant) and isinstance(k.value, str) and member(x) for k, x in zip(v.keys, v.values)):
+                mp = [(k.value, member(x)) for k, x in zip(v.keys, v.values)]
+            elif isinstance(v, ast.DictComp) and len(v.generators) == 2 and not any(g.ifs for g in v.generators):
+                g1, g2 = v.generators
+                if isinstance(g1.target, ast.Tuple) and len(g1.target.elts) == 2 and all(isinstance(e, ast.Name) for e in g1.target.elts) and isinstance(g1.iter, (ast.Tuple, ast.List)) \
+                        and isinstance(g2.target, ast.Name) and isinstance(g2.iter, ast.Name) and g2.iter.id == g1.target.elts[0].id \
+                        and isinstance(v.key, ast.Name) and v.key.id == g2.target.id and isinstance(v.value, ast.Name) and v.value.id == g1.target.elts[1].id \
+                        and all(isinstance(p, ast.Tuple) and len(p.elts) == 2 and isinstance(p.elts[0], ast.Constant) and isinstance(p.elts[0].value, str) and member(p.elts[1]) for p in g1.iter.elts):
+                    mp = [(ch, member(p.elts[1])) for p in g1.iter.elts for ch in p.elts[0].value]
+            if mp is not None and all(len(k) == 1 for k, _ in mp) and len({k for k, _ in mp}) == len(mp):
+                tables[st.targets[0].id] = mp
+    classifiers = {}
+    for fn in [f for f in tree.body if isinstance(f, ast.FunctionDef)]:
+        if len(fn.args.args) != 1 or fn.decorator_list:
+            continue
+        x = fn.args.args[0].arg
+        body = [s for s in fn.body if not _is_doc(s)]
+        cases = []
+        ok = bool(body)
+        for s in body[:-1]:
+            if isinstance(s, ast.If) and not s.orelse and len(s.body) == 1 and isinstance(s.body[0], ast.Return) and s.body[0].value is not None and member(s.body[0].value):
+                cases.append((s.test, member(s.body[0].value)))
+            else:
+                ok = False
+        last = body[-1] if body else None
+        default = None
+        if ok and isinstance(last, ast.Return) and last.value is not None:
+            lv = last.value
+            if member(lv):
+                default = member(lv)
+            elif isinstance(lv, ast.Call) and isinstance(lv.func, ast.Attribute) and lv.func.attr == 'get' and isinstance(lv.func.value, ast.Name) and lv.func.value.id in tables \
+                    and len(lv.args) == 2 and isinstance(lv.args[0], ast.Name) and lv.args[0].id == x and member(lv.args[1]):
+                by_member = {}
+                for ch, m in tables[lv.func.value.id]:
+                    by_member.setdefault(m, []).append(ch)
+                for m, chs in by_member.items():
+                    cases.append((ast.Compare(left=_name(x), ops=[ast.In()], comparators=[ast.Constant(value=''.join(chs))]), m))
+                default = member(lv.args[1])
+            else:
+                ok = False
+        else:
+            ok = False
+        if ok and default is not None and cases:
+            classifiers[fn.name] = (x, cases, default)
+    if not classifiers:
+        return []
+    done = []
+    for fn in [f for f in ast.walk(tree) if isinstance(f, ast.FunctionDef) and f.name not in classifiers]:
+        binds = {}
+        for a in ast.walk(fn):
+            if isinstance(a, ast.Assign) and len(a.targets) == 1 and isinstance(a.targets[0], ast.Name) and isinstance(a.value, ast.Call) and isinstance(a.value.func, ast.Name) \
+                    and a.value.func.id in classifiers and len(a.value.args) == 1 and not a.value.keywords and isinstance(a.value.args[0], ast.Name):
+                binds.setdefault(a.targets[0].id, []).append(a)
+        for v, assigns in binds.items():
+            stores = [n for n in ast.walk(fn) if isinstance(n, ast.Name) and n.id == v and isinstance(n.ctx, ast.Store)]
+            if len(assigns) != 1 or len(stores) != 1:
+                continue
+            a = assigns[0]
+            x, cases, default = classifiers[a.value.func.id]
+            arg = a.value.args[0].id
+            if any(isinstance(n, ast.Name) and n.id == arg and isinstance(n.ctx, ast.Store) and getattr(n, 'lineno', 0) > a.lineno for n in ast.walk(fn)):
+                continue
+            uses = [n for n in ast.walk(fn) if isinstance(n, ast.Name) and n.id == v and isinstance(n.ctx, ast.Load)]
+
+            def cond_for(m):
+                alts = []
+                for k, (t, mm) in enumerate(cases):
+                    if mm != m:
+                        continue
+                    parts = [ast.UnaryOp(op=ast.Not(), operand=_Subst(names={x: _name(arg)}).visit(_clone(t2))) for t2, _ in cases[:k] if not (isinstance(t2, ast.Compare) and isinstance(t2.comparators[0], ast.Constant) and isinstance(t, ast.Compare) and isinstance(t.comparators[0], ast.Constant))]
+                    parts.append(_Subst(names={x: _name(arg)}).visit(_clone(t)))
+                    alts.append(parts[0] if len(parts) == 1 else ast.BoolOp(op=ast.And(), values=parts))
+                if m == default:
+                    parts = [ast.UnaryOp(op=ast.Not(), operand=_Subst(names={x: _name(arg)}).visit(_clone(t2))) for t2, _ in cases]
+                    alts.append(parts[0] if len(parts) == 1 else ast.BoolOp(op=ast.And(), values=parts))
+                if not alts:
+                    return ast.Constant(value=False)
+                return alts[0] if len(alts) == 1 else ast.BoolOp(op=ast.Or(), values=alts)
+            _link(fn)
+            plan = []
+            good = True
+            for u in uses:
+                par = getattr(u, '_ofparent', None)
+                if isinstance(par, ast.Compare) and par.left is u and len(par.ops) == 1 and isinstance(par.ops[0], (ast.Is, ast.Eq, ast.IsNot, ast.NotEq)) and member(par.comparators[0]):
+                    c = cond_for(member(par.comparators[0]))
+                    if isinstance(par.ops[0], (ast.IsNot, ast.NotEq)):
+                        c = ast.UnaryOp(op=ast.Not(), operand=c)
+                    plan.append((par, c))
+                else:
+                    good = False
+            if not good or not plan:
+                continue
+            for par, c in plan:
+                holder = getattr(par, '_ofparent', None)
+                for fld, val in ast.iter_fields(holder):
+                    if val is par:
+                        setattr(holder, fld, ast.copy_location(c, par))
+                    elif isinstance(val, list) and par in val:
+                        val[val.index(par)] = ast.copy_location(c, par)
+            ast.fix_missing_locations(fn)
+            done.append('%s:%s' % (fn.name, v))
+    return done
